@@ -1070,6 +1070,20 @@ def fam_narrowing_chain(rng):
     return net
 
 
+def fam_deep_chain(rng, kind=None):
+    """a long sequential chain of cheap operators (recursive graph traversals: about 3 Python frames per operator);
+    kind = number of operators"""
+    net = Net("deep_chain")
+    n = int(kind) if kind else rng.choice([250, 350, 600])
+    x = net.input([1, 4, 4, 8], "int8", 0.05, 0, name="input0")
+    t = x
+    for i in range(n):
+        t = pool(net, rng, t, "MAX_POOL_2D", (1, 1), (1, 1), "VALID")
+    net.output(t)
+    net.desc = ["MAX_POOL_2D x %d" % n]
+    return net
+
+
 def fam_weights_heavy(rng):
     """convolutions / fully connected layers with many weights: weight buffering, double buffering, depth slicing,
     two-core weight interleaving"""
@@ -1350,7 +1364,7 @@ def fam_multi_subgraph(rng, kind=None):
 
 FAMILIES = {
     "conv_chain": fam_conv_chain, "conv_chain_big": lambda rng: fam_conv_chain(rng, big=True), "single": fam_single_op,
-    "diamond": fam_diamond, "mixed_cpu": fam_mixed_cpu, "unsupported": fam_unsupported, "lut_heavy": fam_lut_heavy, "lut_mixed": fam_lut_mixed, "siamese": fam_siamese, "multi_input": fam_multi_input, "pow2_rescale": fam_pow2_rescale, "narrowing_chain": fam_narrowing_chain, "weights_heavy": fam_weights_heavy, "ew_dag": fam_ew_dag, "multi_custom": fam_multi_custom,
+    "diamond": fam_diamond, "mixed_cpu": fam_mixed_cpu, "unsupported": fam_unsupported, "lut_heavy": fam_lut_heavy, "lut_mixed": fam_lut_mixed, "siamese": fam_siamese, "multi_input": fam_multi_input, "deep_chain": fam_deep_chain, "pow2_rescale": fam_pow2_rescale, "narrowing_chain": fam_narrowing_chain, "weights_heavy": fam_weights_heavy, "ew_dag": fam_ew_dag, "multi_custom": fam_multi_custom,
 }
 FAMILIES["multi_subgraph"] = fam_multi_subgraph
 
